@@ -3,7 +3,7 @@
 import json
 from harness import common
 from harness.props import c01_regen
-from harness.c01_pool import POOL, PURE_HINT, RATE_CONSTRAINED, UNOPS_OPAQUE, BINOPS_ARITH, BINOPS_OPAQUE, CHAIN_CLASSES
+from harness.c01_pool import unit_inputs, DEMAND_CLASSES, POOL, PURE_HINT, RATE_CONSTRAINED, UNOPS_OPAQUE, BINOPS_ARITH, BINOPS_OPAQUE, CHAIN_CLASSES
 
 CONSTS = [(0, 1), (1, 1), (-1, 1), (2, 1), (-2, 1), (1, 2), (1, 4), (3, 1), (440, 1), (-1, 2), (5, 1), (3, 4)]
 
@@ -73,8 +73,36 @@ class GraphGen:
                     chain = push({'t': 'atom', 'cls': 'PV_MagMul', 'ctor': 'new', 'ins': [chain, chain]})
                 y = push({'t': 'atom', 'cls': 'IFFT', 'ctor': 'ar', 'ins': [chain, ['n', 0, 1], ['n', 0, 1]]})
                 vals.append((y[1], 0)); known['ar'].append((y[1], 0))
+            elif x < 0.07:
+                # a demand-rate block: sources, arithmetic that stays at demand rate (constants and
+                # other demand values only), pulled by a Duty unit whose output joins the signal pool
+                def push(ev):
+                    events.append(ev); return ['r', base + len(events) - 1, 0]
+                dv = []
+                for _k in range(r.randint(1, 2)):
+                    cls = r.choice(['Dwhite', 'Dseries'])
+                    dv.append(push({'t': 'atom', 'cls': cls, 'ctor': 'dr', 'ins': [self.const(), self.const(), ['n', r.choice([1, 4, 8]), 1]]}))
+
+                def dpick():
+                    return r.choice(dv) if r.random() < 0.7 else self.const()
+                for _k in range(r.randint(0, 4)):
+                    kind = r.choice(['add', 'add', 'sub', 'mul', 'neg', 'madd'])
+                    if kind == 'neg':
+                        dv.append(push({'t': 'unop', 'sel': 'neg', 'a': r.choice(dv)}))
+                    elif kind == 'madd':
+                        dv.append(push({'t': 'madd', 'a': r.choice(dv), 'm': dpick(), 'c': dpick()}))
+                    else:
+                        a_, b_ = (r.choice(dv), dpick()) if r.random() < 0.7 else (dpick(), r.choice(dv))
+                        dv.append(push({'t': 'binop', 'sel': kind, 'a': a_, 'b': b_}))
+                ctor = r.choice(['ar', 'kr'])
+                dins = [dpick() if r.random() < 0.5 else ['n', 1, 4], ['n', 0, 1], r.choice(dv), ['n', 0, 1]]
+                for _k in (1, 3):
+                    if self.allow_bad and r.random() < 3 * self.bad_rate:
+                        dins[_k] = ['bad', r.choice(['none', 'nan', 'str'])]; surely_valid = False
+                y = push({'t': 'atom', 'cls': 'Duty', 'ctor': ctor, 'ins': dins})
+                vals.append((y[1], 0)); known[ctor].append((y[1], 0))
             elif x < 0.28 or not vals:
-                cls = r.choice([c for c in POOL if c not in CHAIN_CLASSES])
+                cls = r.choice([c for c in POOL if c not in CHAIN_CLASSES and c not in DEMAND_CLASSES])
                 mod, ctors, nargs, nres = POOL[cls]
                 ins = []
                 ctor = r.choice(ctors)
@@ -214,7 +242,7 @@ def model_lines(prog, flags):
                      'ret': int(nres > 0)}
             lines.append(' '.join(['atom', f['cls'], f['rate'], str(f['dce']), str(f['multi']), str(f['nout']),
                                    str(f['isugen']), str(f['wf']), str(f.get('ret', 1)), f['check']]
-                                  + [arg_str(a) for a in e['ins']]))
+                                  + [arg_str(a) for a in unit_inputs(e['cls'], e['ins'])]))
         elif t == 'localbuf':
             lines.append(f'localbuf {arg_str(e["frames"])} {arg_str(e["channels"])}')
         elif t == 'unop':
